@@ -17,6 +17,7 @@ from adaptix import ProviderNotFoundError, Retort
 from adaptix._internal.code_tools import compiler as _compiler
 from adaptix._internal.retort import searching_retort as _searching_retort
 from adaptix.conversion import get_converter
+from adaptix.load_error import TypeLoadError
 
 from mc import env, parallel, sched
 from mc.report import Report
@@ -294,7 +295,9 @@ class Blob:
 
 
 def _load_blob(data):
-    return Blob(str(data))
+    if isinstance(data, str):
+        return Blob(data)
+    raise TypeLoadError(str, data)     # a dict must fall through to the Link case of the union (the recursive loader)
 
 
 @dataclass
